@@ -35,12 +35,17 @@ func runC09(c *Ctx) {
 	L.Rule("R-C09-ACCOUNT", "\"fits in the remaining capacity\" is judged on an exact figure: every writer keeps used == sum(keyCosts) (shared with C03)", 4)
 	L.Rule("R-C09-SAMPLE", "fillSample appends ranged keyCosts pairs only, up to lfuSample", 1)
 	L.Rule("R-C09-ESTIMATE", "tinyLFU.Estimate = sketch estimate + 1 iff doorkeeper has the key", 1)
-	L.Rule("R-C09-REPORT", "rejected newcomer -> onReject; victims loop reached on both outcomes", 2)
+	L.Rule("R-C09-REPORT", "rejected newcomer -> onReject; victims loop reached on both outcomes; victims removed by primary hash alone", 3)
 
 	L.Rule("R-C09-STREAM", "recorded accesses reach the sketch unaltered: ring stripe batches are not reused after the hand-off", 3)
 	L.Rule("R-C09-COUNTERS", "cmRow.get/increment agree on the nibble and increment saturates at the mask value", 3)
 	fastPathRule(c, "R-C09-FAST")
 	accountingInvRule(c, "R-C09-ACCOUNT")
+	importRulesWhere(c, runC03, map[string]string{"R-C03-ROOM": "R-C09-FAST"}, func(o *Obligation) bool {
+		return o.Construct == "defaultPolicy.Add#oversize" || o.Construct == "sampledLFU.roomLeft"
+	})
+	// aging must not invent accesses: halving keeps the two counters of a byte apart (shared with C18)
+	importRules(c, runC18, map[string]string{"R-C18-HALVE": "R-C09-COUNTERS"})
 	ringRule(c, "R-C09-STREAM")
 	nibbleRule(c, "R-C09-COUNTERS")
 
@@ -416,6 +421,32 @@ func runC09(c *Ctx) {
 		}
 	})
 
+	c.Group("R-C09-REPORT", "Cache.processItems#victim-del", func() {
+		// a victim is identified by its primary hash alone (the policy knows nothing else): it is removed
+		// from the map with conflict 0 = "do not compare". Passing any other conflict hash (the newcomer's)
+		// leaves the victim resident after the policy dropped it whenever keys carry a conflict hash.
+		fn := P.Fn("ristretto", "Cache", "processItems")
+		tb := newTB(fn)
+		n := 0
+		var bad []string
+		var pos token.Pos
+		for _, ci := range allCalls(fn) {
+			cc := ci.Common()
+			if !cc.IsInvoke() || cc.Method.Name() != "Del" || recvName(cc.Value.Type()) != "store" {
+				continue
+			}
+			kt := tb.T(cc.Args[0]).String()
+			if !strings.HasPrefix(kt, "fld[Key](idx(") { // victim.Key: an element of the victims slice
+				continue
+			}
+			n++
+			if !isConst(cc.Args[1], "0") {
+				bad = append(bad, "store.Del("+kt+", "+tb.T(cc.Args[1]).String()+")")
+				pos = ci.Pos()
+			}
+		}
+		L.Check(len(bad) == 0 && n == 1, "R-C09-REPORT", "Cache.processItems#victim-del", "victims are removed with store.Del(victim.Key, 0)", fmt.Sprintf("victims are not removed with conflict 0 (%d victim removals; %s): a victim whose stored conflict hash differs stays in the map and keeps being served", n, strings.Join(bad, "; ")), pos)
+	})
 	c.Group("R-C09-REPORT", "Cache.processItems", func() {
 		pf := P.Fn("ristretto", "Cache", "processItems")
 		t := newTB(pf)
